@@ -87,6 +87,41 @@ def fill_stacks(rnd, tier):
     return progs
 
 
+def mixed_backing_stacks(rnd, tier):
+    """C04: in-memory and disk-backed pieces in one stack call: the first
+    piece plain and in memory, a later piece masked and read from disk (a
+    netCDF4 variable is no masked array, its data are), in every position."""
+    def sl(a, b):
+        return {'k': 'slice', 'h': [a is not None, b is not None, False],
+                'v': [a or 0, b or 0, 0]}
+    nowhere = {'h': False, 'shape': [], 'bits': []}
+    progs = []
+    for t, d, hi in (('T1', 't', 104), ('T1', 'x', 104), ('T4', 't', 402),
+                     ('T7', 't', 712), ('T3', 'y', 304)):
+        fmt = 'NETCDF4' if t == 'T3' else 'NETCDF4_CLASSIC'
+        steps = [{'act': 'slice', 'src': 1, 'others': [], 'args': {
+            'sels': [{'d': d, 's': sl(None, 1)}], 'newdim': 'POINTS'}},
+            {'act': 'slice', 'src': 1, 'others': [], 'args': {
+                'sels': [{'d': d, 's': sl(1, None)}], 'newdim': 'POINTS'}},
+            {'act': 'mask', 'src': 3, 'others': [], 'args': {
+                'p': [{'k': 'greater', 'v': hi}], 'where': nowhere,
+                'usedims': {'h': False, 'v': []}, 'coords': False}},
+            {'act': 'reopen', 'src': 4, 'others': [],
+             'args': {'format': fmt}},
+            {'act': 'reopen', 'src': 2, 'others': [],
+             'args': {'format': fmt}}]
+        # 2: first piece (memory, plain) 4: second (memory, masked)
+        # 5: second (disk, masked)      6: first (disk, plain)
+        for src, others, aslist in ((2, [5], False), (2, [5], True),
+                                    (2, [5, 2], True), (2, [2, 5], True),
+                                    (2, [4, 5], True), (6, [5], False),
+                                    (2, [6, 5], True)):
+            steps.append({'act': 'stack', 'src': src, 'others': others,
+                          'args': {'dim': d, 'aslist': aslist}})
+        progs.append({'templates': [t], 'steps': steps})
+    return progs
+
+
 UNLIM = {'T1': ['t'], 'T2': ['t'], 'T3': ['t'], 'T5': ['time'], 'T7': ['t']}
 
 
@@ -512,6 +547,7 @@ def run(prop, tier, extra=None):
         progs += hetero_stacks(rnd, tier)
         progs += mfopen_stacks(rnd, tier)
         progs += fill_stacks(rnd, tier)
+        progs += mixed_backing_stacks(rnd, tier)
     if prop == 'C03':
         progs += multidim_applies(rnd, tier)
         progs += stringform_applies(rnd, tier)
